@@ -112,6 +112,35 @@ def _context(events, pos):
     return mode, e['ev'], ckind, events[start:i + 1]
 
 
+def _early_unsubscribe(run):
+    """The last event of `run` is the Ret (nil) of a Receive.  True when an unsubscribe push for one of its channels was
+    queued by the server after the Receive was called but before the server received its SUBSCRIBE: pipe.go registers
+    the subscriber before the command is written and treats every unsubscribe notification of the channel alike, so the
+    older notification ends the newer Receive (known finding, see known_findings.json)."""
+    ret = run[-1]
+    c = ret.get('c')
+    call = next((k for k, e in enumerate(run) if e['ev'] == 'Call' and e.get('c') == c), None)
+    if call is None:
+        return False
+    cid = (run[call].get('ids') or [''])[0]
+    chans = set((run[call].get('cmds') or [[]])[0][1:])
+    recv = next((k for k, e in enumerate(run) if e['ev'] == 'SRecv' and cid in (e.get('ids') or [])), len(run))
+    def unsub(e):
+        return e['ev'] == 'SPush' and e.get('kind', '').endswith('unsubscribe') and e.get('chan') in chans
+    early = any(unsub(e) for e in run[call:recv])
+    if not early:
+        # the notification may even be older than the call, as long as the client's reader had not finished with it:
+        # witnessed by an earlier Receive on that channel that returned only after this one was called
+        for k, e in enumerate(run[:call]):
+            if unsub(e):
+                for c2 in set(x.get('c') for x in run[:call] if x['ev'] == 'Call' and x.get('kind') == 'sub' and x.get('c') != c):
+                    r2 = next((j for j, x in enumerate(run) if x['ev'] == 'Ret' and x.get('c') == c2), None)
+                    if r2 is not None and r2 > call:
+                        early = True
+    late = any(unsub(e) for e in run[recv:])
+    return early and not late
+
+
 def run_trace(ctx, path, props, timeout=2400):
     """Validate one ndjson file. Returns (ok, violated props, position, tlc result)."""
     d = tempfile.mkdtemp(prefix='verif-pipecfg-', dir=vlib.SCRATCH_ROOT)
@@ -149,27 +178,45 @@ def validate(ctx, tracedir, props):
         for f in files:
             out.write(open(f).read())
     events = [json.loads(l) for l in open(allp)]
-    ok, names, pos, r = run_trace(ctx, allp, props)
-    ctx.tlc_runs.append(dict(r.summary(), trace_events=len(events), runs=sum(1 for e in events if e['ev'] == 'RESET')))
-    if ok:
-        return events
-    if names:
-        mode, ev, ckind, prefix = _context(events, pos)
-        keep = os.path.join(vlib.VERIF, 'replays', ctx.pid)
-        os.makedirs(keep, exist_ok=True)
-        dst = os.path.join(keep, 'trace-%s-%s.ndjson' % (names[0], mode))
-        vlib.write_ndjson(dst, prefix)
-        for n in names:
-            ctx.violation('pipe-trace:%s:ev=%s:kind=%s:mode=%s' % (n, ev, ckind, mode),
-                          'the recorded behaviour of the real client violates %s of PipeObs.tla at record #%d (%s, run of mode %s): %s' % (
-                              n, pos, ev, mode, json.dumps(events[pos - 1])[:600]), dict(trace=dst, props=props))
-        # a violation of the property by the real code; counted traces are those before it
-    elif pos:
-        mode, ev, ckind, _ = _context(events, pos)
-        ctx.inconclusive.append('trace record #%d (%s, mode %s) is not accepted by any action of PipeTrace.tla (malformed or out-of-order log, '
-                                'not a verdict about the client): %s\n%s' % (pos, ev, mode, json.dumps(events[pos - 1])[:400], r.output[-800:]))
-    else:
-        ctx.inconclusive.append('trace validation did not run to the end: %s\n%s' % (r.error, r.output[-1500:]))
+    all_events = events
+    clean = True
+    # A violating run is reported and removed, and the remaining runs are validated again, so that one violation
+    # (in particular a known finding) does not hide what the other runs show.
+    for _round in range(8):
+        ok, names, pos, r = run_trace(ctx, allp, props)
+        ctx.tlc_runs.append(dict(r.summary(), trace_events=len(events), runs=sum(1 for e in events if e['ev'] == 'RESET')))
+        if ok:
+            return all_events if clean else None
+        if names:
+            clean = False
+            mode, ev, ckind, prefix = _context(events, pos)
+            keep = os.path.join(vlib.VERIF, 'replays', ctx.pid)
+            os.makedirs(keep, exist_ok=True)
+            dst = os.path.join(keep, 'trace-%s-%s.ndjson' % (names[0], mode))
+            vlib.write_ndjson(dst, prefix)
+            for n in names:
+                sig = 'pipe-trace:%s:ev=%s:kind=%s:mode=%s' % (n, ev, ckind, mode)
+                if n == 'ReceiveReturn' and _early_unsubscribe(prefix):
+                    sig += ':race=unsubscribe-push-older-than-own-subscribe'
+                ctx.violation(sig,
+                              'the recorded behaviour of the real client violates %s of PipeObs.tla at record #%d (%s, run of mode %s): %s' % (
+                                  n, pos, ev, mode, json.dumps(events[pos - 1])[:600]), dict(trace=dst, props=props))
+            # drop the violating run and go on with the rest
+            i = pos - 1
+            start = max([j for j in range(i + 1) if events[j]['ev'] == 'RESET'] or [0])
+            end = next((j for j in range(i + 1, len(events)) if events[j]['ev'] == 'RESET'), len(events))
+            events = events[:start] + events[end:]
+            if not any(e['ev'] == 'RESET' for e in events):
+                return None
+            vlib.write_ndjson(allp, events)
+            continue
+        if pos:
+            mode, ev, ckind, _ = _context(events, pos)
+            ctx.inconclusive.append('trace record #%d (%s, mode %s) is not accepted by any action of PipeTrace.tla (malformed or out-of-order log, '
+                                    'not a verdict about the client): %s\n%s' % (pos, ev, mode, json.dumps(events[pos - 1])[:400], r.output[-800:]))
+        else:
+            ctx.inconclusive.append('trace validation did not run to the end: %s\n%s' % (r.error, r.output[-1500:]))
+        return None
     return None
 
 
